@@ -5,6 +5,7 @@ cd /verif
 . ./env.sh
 mkdir -p .work bin .cache evidence replays
 go build -o bin/check ./cmd/check
+go build -race -o bin/check-race ./cmd/check
 go vet ./mc ./pki >/dev/null 2>&1 || true
 ./bin/check -list >/dev/null
 echo "setup ok: $(./bin/check -list | tr '\n' ' ')"
